@@ -17,6 +17,10 @@ TEXT = {
          "where the statement fixes no position (un-positioned create, re-parent) only membership and preservation of the others' order are required"),
  "C10": ("Any workload on an on-disk library (SimDisk) with close — every handle released in a seeded order, optional clock jump — and load_database at seeded prefixes and at the end: full public-API observation before close and after reload must be identical, loaded_schema must equal the created schema, database_exists/create_or_load must report existing vs missing libraries correctly.",
          "clean close only (no power-loss model: no listed property quantifies over crash points)"),
+ "C02": ("Two parties on shared simulated storage: after every mutating step an auditor with its own SQLite connection fetches the raw blob bytes of every track and decodes them with an independent codec (refcodec); the frame and every logical field must agree with what the library itself reports. The converse direction (independent encoder writes, library reads) is exercised by the foreign-writer profile.",
+         "common-mode risk: refcodec and the library were read from the same description; agreement pins today's format"),
+ "C11": ("After every prefix of the workloads an independent reader checks the raw database: PRAGMA integrity_check and foreign_key_check clean, verify() passes, every stored performance blob decodes, 1.x Crate.path / CrateParentList / CrateHierarchy all describe the model forest, 2.x nextListId / nextEntityId chains are single acyclic lists covering all rows, filename / file-extension metadata / fileType / origin columns agree with path and UUID, no orphan rows.",
+         "on-disk libraries only (the auditor needs a file to open); audit right after an injected fault is skipped"),
  "C14": ("Fault enumeration inside each mutating call: for sampled (pre-state, call) pairs on an on-disk library the call is re-executed from the same restored disk image once per fault position - every SQL statement failing with BUSY/ERROR/READONLY (exhaustive), every VFS call of the call addressed as (method, file, ordinal), every VM tick (cancellation), seeded SQLite allocation failures - and the full public observation afterwards must equal the pre-state (or, for real-path faults that SQLite reports after its commit point, exactly the fault-free post-state); errors must surface as std::exception and the call must succeed when retried.",
          "inner loop exhaustive for F1 and within caps (256) for F2/F3, outer loop sampled; F1 is a stub-level fault at the statement boundary, F2-F4 go through SQLite's real pager/journal error paths on the simulated disk"),
  "C16": ("In every state reached by the workloads a monitor brackets the complete block of observing calls (every getter, snapshot(), listings, lookups) with SimDisk write/truncate/delete counters for non-temporary files, sqlite3_total_changes of the library's connections and the image hash; the block is repeated with the simulated clock moved and must give identical answers.",
